@@ -56,100 +56,162 @@ Qed.
 
 Section Req.
 Variable buf : nat.
-Hypothesis Hbuf : 0 < buf.
+Variable maxb : option nat.        (* any size limit, or none *)
 
-(* ---- 1. a cached body is stable ---- *)
+(* ---- 1. a settled outcome is stable ----
+   A request object is SETTLED when it either presents a buffered body c or carries the error of a failed
+   read (F43: environ['ombott.request.body_error']).  Either way later accesses do not touch any stream. *)
 
 (* does the operation replace the input of request r ? *)
 Definition sets_input (r : nat) (o : op) : bool :=
   match o with OSetInput r' _ _ => Nat.eqb r r' | _ => false end.
 
-Definition cached (w : world) (r : nat) (c : list N) : Prop :=
-  exists rq, nth_error (w_reqs w) r = Some rq /\ r_cache rq = Some c.
+Definition settled (w : world) (r : nat) (res : option (list N)) : Prop :=
+  exists rq, nth_error (w_reqs w) r = Some rq /\
+             match res with
+             | Some c => r_failed rq = false /\ r_cache rq = Some c
+             | None => r_failed rq = true
+             end.
 
-Lemma step_keeps_cache w o r c :
-  cached w r c -> sets_input r o = false -> cached (fst (step buf w o)) r c.
+Definition cached (w : world) (r : nat) (c : list N) : Prop := settled w r (Some c).
+Definition failed (w : world) (r : nat) : Prop := settled w r None.
+
+Definition outcome (res : option (list N)) (k : option nat) : out :=
+  match res with Some c => OutBytes (take_opt k c) | None => OutErr end.
+
+Lemma settled_untouched w w' r res :
+  (forall rq, nth_error (w_reqs w) r = Some rq -> nth_error (w_reqs w') r = Some rq) ->
+  settled w r res -> settled w' r res.
+Proof. intros H (rq & Hr & Hres). exists rq. split; [apply H; exact Hr | exact Hres]. Qed.
+
+Lemma step_keeps_settled w o r res :
+  settled w r res -> sets_input r o = false -> settled (fst (step buf maxb w o)) r res.
 Proof.
-  intros (rq & Hr & Hc) Hset. unfold cached.
+  intros Hs Hset. pose proof Hs as (rq & Hr & Hres).
   destruct o as [r' k|r'|r' v|r'|r' d sc]; cbn [step].
   - (* OBody *)
-    destruct (nth_error (w_reqs w) r') as [rq'|] eqn:Hr'; [|now exists rq].
-    destruct (r_cache rq') as [c'|] eqn:Hc'; [now exists rq|].
-    destruct (body_read_cl_any (nth (r_input rq') (w_streams w) dummy_stream) buf (r_cl rq') Hbuf)
-      as (s' & Heq & _). rewrite Heq. cbn [fst w_reqs].
-    destruct (Nat.eq_dec r' r) as [->|Hne].
-    + rewrite Hr in Hr'. injection Hr' as <-. congruence.
-    + rewrite nth_error_set_nth_neq by exact Hne. now exists rq.
+    destruct (nth_error (w_reqs w) r') as [rq'|] eqn:Hr'; [|exact Hs].
+    destruct (r_failed rq') eqn:Hf'; [exact Hs|].
+    destruct (r_cache rq') as [c'|] eqn:Hc'; [exact Hs|].
+    assert (Hne : r' <> r).
+    { intros ->. rewrite Hr in Hr'. injection Hr' as <-.
+      destruct res as [c|]; [destruct Hres as [_ Hc]; congruence | congruence]. }
+    destruct (body_read_cl (nth (r_input rq') (w_streams w) dummy_stream) buf maxb (r_cl rq'))
+      as [body sp s'|s'|s'|]; cbn [fst]; try exact Hs;
+      (eapply settled_untouched; [|exact Hs]; intros rq0 H0; cbn [w_reqs];
+       rewrite nth_error_set_nth_neq by exact Hne; exact H0).
   - (* OCopy *)
-    destruct (nth_error (w_reqs w) r') as [rq'|] eqn:Hr'; [|now exists rq].
-    cbn [fst w_reqs]. exists rq. split; [|exact Hc].
-    rewrite nth_error_app1; [exact Hr | eapply nth_error_Some_lt; exact Hr].
+    destruct (nth_error (w_reqs w) r') as [rq'|] eqn:Hr'; [|exact Hs].
+    cbn [fst]. eapply settled_untouched; [|exact Hs]. intros rq0 H0. cbn [w_reqs].
+    rewrite nth_error_app1; [exact H0 | eapply nth_error_Some_lt; exact H0].
   - (* OSetCL *)
-    destruct (nth_error (w_reqs w) r') as [rq'|] eqn:Hr'; [|now exists rq].
-    cbn [fst w_reqs].
+    destruct (nth_error (w_reqs w) r') as [rq'|] eqn:Hr'; [|exact Hs].
+    cbn [fst].
     destruct (Nat.eq_dec r' r) as [->|Hne].
     + rewrite Hr in Hr'. injection Hr' as <-.
-      eexists. split; [apply nth_error_set_nth_eq; eapply nth_error_Some_lt; exact Hr|]. exact Hc.
-    + rewrite nth_error_set_nth_neq by exact Hne. now exists rq.
+      eexists. split; [cbn [w_reqs]; apply nth_error_set_nth_eq; eapply nth_error_Some_lt; exact Hr|].
+      destruct res; cbn [r_failed r_cache]; exact Hres.
+    + eapply settled_untouched; [|exact Hs]. intros rq0 H0. cbn [w_reqs].
+      rewrite nth_error_set_nth_neq by exact Hne. exact H0.
   - (* OSetOther *)
-    destruct (nth_error (w_reqs w) r'); now exists rq.
+    destruct (nth_error (w_reqs w) r'); exact Hs.
   - (* OSetInput *)
     cbn [sets_input] in Hset. apply Nat.eqb_neq in Hset.
-    destruct (nth_error (w_reqs w) r') as [rq'|] eqn:Hr'; [|now exists rq].
-    cbn [fst w_reqs]. rewrite nth_error_set_nth_neq by congruence. now exists rq.
+    destruct (nth_error (w_reqs w) r') as [rq'|] eqn:Hr'; [|exact Hs].
+    cbn [fst]. eapply settled_untouched; [|exact Hs]. intros rq0 H0. cbn [w_reqs].
+    rewrite nth_error_set_nth_neq by congruence. exact H0.
 Qed.
 
-Lemma run_keeps_cache ops : forall w r c,
-  cached w r c -> forallb (fun o => negb (sets_input r o)) ops = true ->
-  cached (fst (run buf w ops)) r c.
+Lemma run_keeps_settled ops : forall w r res,
+  settled w r res -> forallb (fun o => negb (sets_input r o)) ops = true ->
+  settled (fst (run buf maxb w ops)) r res.
 Proof.
-  induction ops as [|o ops IH]; intros w r c Hc Hops; [exact Hc|].
+  induction ops as [|o ops IH]; intros w r res Hc Hops; [exact Hc|].
   cbn [forallb] in Hops. apply andb_true_iff in Hops. destruct Hops as [Ho Hops].
   apply negb_true_iff in Ho. cbn [run].
-  pose proof (step_keeps_cache w o r c Hc Ho) as H1.
-  destruct (step buf w o) as [w1 x]. cbn [fst] in H1.
-  specialize (IH w1 r c H1 Hops).
-  destruct (run buf w1 ops) as [w2 xs]. exact IH.
+  pose proof (step_keeps_settled w o r res Hc Ho) as H1.
+  destruct (step buf maxb w o) as [w1 x]. cbn [fst] in H1.
+  specialize (IH w1 r res H1 Hops).
+  destruct (run buf maxb w1 ops) as [w2 xs]. exact IH.
 Qed.
 
-(* an access to a cached body returns (a prefix of) it and changes nothing *)
-Lemma cached_access w r c k :
-  cached w r c -> step buf w (OBody r k) = (w, OutBytes (take_opt k c)).
-Proof. intros (rq & Hr & Hc). cbn [step]. now rewrite Hr, Hc. Qed.
-
-(* a copy of a request with a cached body presents the same body *)
-Lemma cached_copy w r c :
-  cached w r c ->
-  exists w', step buf w (OCopy r) = (w', OutNew (length (w_reqs w))) /\ cached w' (length (w_reqs w)) c
-             /\ w_streams w' = w_streams w.
+(* an access to a settled request returns its outcome and changes nothing (no stream is read) *)
+Lemma settled_access w r res k :
+  settled w r res -> step buf maxb w (OBody r k) = (w, outcome res k).
 Proof.
-  intros (rq & Hr & Hc). cbn [step]. rewrite Hr. eexists. split; [reflexivity|].
-  split; [|reflexivity]. exists rq. split; [|exact Hc].
+  intros (rq & Hr & Hres). cbn [step]. rewrite Hr.
+  destruct res as [c|]; [destruct Hres as [Hf Hc]; now rewrite Hf, Hc | now rewrite Hres].
+Qed.
+
+(* a copy of a settled request is settled the same way *)
+Lemma settled_copy w r res :
+  settled w r res ->
+  exists w', step buf maxb w (OCopy r) = (w', OutNew (length (w_reqs w)))
+             /\ settled w' (length (w_reqs w)) res /\ w_streams w' = w_streams w.
+Proof.
+  intros (rq & Hr & Hres). cbn [step]. rewrite Hr. eexists. split; [reflexivity|].
+  split; [|reflexivity]. exists rq. split; [|exact Hres].
   cbn [w_reqs]. rewrite nth_error_app2 by lia. now rewrite Nat.sub_diag.
 Qed.
 
-(* the main stability statement: once request r presents body c, it presents c
-   after any further operations on the whole family that do not assign a new
-   wsgi.input to r itself *)
+(* once request r is settled, it answers the same way after any further operations on the whole
+   family that do not assign a new wsgi.input to r itself *)
+Lemma settled_stable w r res ops k :
+  settled w r res ->
+  forallb (fun o => negb (sets_input r o)) ops = true ->
+  let w' := fst (run buf maxb w ops) in
+  step buf maxb w' (OBody r k) = (w', outcome res k).
+Proof. intros Hc Hops w'. apply settled_access. apply run_keeps_settled; assumption. Qed.
+
 Lemma stable_lemma w r c ops k :
   cached w r c ->
   forallb (fun o => negb (sets_input r o)) ops = true ->
-  let w' := fst (run buf w ops) in
-  step buf w' (OBody r k) = (w', OutBytes (take_opt k c)).
+  let w' := fst (run buf maxb w ops) in
+  step buf maxb w' (OBody r k) = (w', OutBytes (take_opt k c)).
+Proof. exact (settled_stable w r (Some c) ops k). Qed.
+
+Lemma failed_final_lemma w r ops k :
+  failed w r ->
+  forallb (fun o => negb (sets_input r o)) ops = true ->
+  let w' := fst (run buf maxb w ops) in
+  step buf maxb w' (OBody r k) = (w', OutErr).
+Proof. exact (settled_stable w r None ops k). Qed.
+
+Lemma cached_copy w r c :
+  cached w r c ->
+  exists w', step buf maxb w (OCopy r) = (w', OutNew (length (w_reqs w))) /\ cached w' (length (w_reqs w)) c
+             /\ w_streams w' = w_streams w.
+Proof. exact (settled_copy w r (Some c)). Qed.
+
+(* a refused read marks the request: the access that reports the refusal leaves it failed *)
+Lemma refusal_marks w r k w' :
+  step buf maxb w (OBody r k) = (w', OutErr) -> failed w' r.
 Proof.
-  intros Hc Hops w'. apply cached_access. apply run_keeps_cache; assumption.
+  cbn [step]. destruct (nth_error (w_reqs w) r) as [rq|] eqn:Hr; [|discriminate].
+  destruct (r_failed rq) eqn:Hf.
+  - intros H. injection H as <-. exists rq. split; assumption.
+  - destruct (r_cache rq); [discriminate|].
+    destruct (body_read_cl _ _ _ _) as [body sp s'|s'|s'|]; try discriminate.
+    intros H. injection H as <-. eexists. split; [cbn [w_reqs]; apply nth_error_set_nth_eq;
+      eapply nth_error_Some_lt; exact Hr | reflexivity].
 Qed.
 
-(* ---- 2. the first access materialises exactly the Content-Length bytes ---- *)
+End Req.
+
+Section First.
+Variable buf : nat.
+Hypothesis Hbuf : 0 < buf.
+
+(* ---- 2. the first access materialises exactly the Content-Length bytes (no size limit configured) ---- *)
 
 (* operations that neither read a body nor install a stream *)
 Definition passive (o : op) : bool :=
   match o with OBody _ _ | OSetInput _ _ _ => false | _ => true end.
 
-(* invariant of passive histories from world_init: one untouched stream, no cache anywhere *)
+(* invariant of passive histories from world_init: one untouched stream, nothing settled anywhere *)
 Definition fresh (data : list N) (sc : list nat) (w : world) : Prop :=
   w_streams w = [stream_init data sc] /\
-  Forall (fun rq => r_input rq = 0 /\ r_cache rq = None) (w_reqs w).
+  Forall (fun rq => r_input rq = 0 /\ r_cache rq = None /\ r_failed rq = false) (w_reqs w).
 
 Lemma Forall_set_nth {A} (P : A -> Prop) l i x : Forall P l -> P x -> Forall P (set_nth i x l).
 Proof.
@@ -159,33 +221,33 @@ Qed.
 Lemma Forall_nth_error {A} (P : A -> Prop) l i x : Forall P l -> nth_error l i = Some x -> P x.
 Proof. intros H E. rewrite Forall_forall in H. apply H. eapply nth_error_In; exact E. Qed.
 
-Lemma step_fresh data sc w o :
-  fresh data sc w -> passive o = true -> fresh data sc (fst (step buf w o)).
+Lemma step_fresh data sc mb w o :
+  fresh data sc w -> passive o = true -> fresh data sc (fst (step buf mb w o)).
 Proof.
   intros [Hs Hr] Hp. destruct o as [r k|r|r v|r|r d s]; try discriminate; cbn [step];
     destruct (nth_error (w_reqs w) r) as [rq|] eqn:E; cbn [fst]; try (split; assumption).
   - (* OCopy *)
-    destruct (Forall_nth_error _ _ _ _ Hr E) as [Hi Hc].
+    destruct (Forall_nth_error _ _ _ _ Hr E) as (Hi & Hc & Hf).
     split; [exact Hs|]. cbn [w_reqs]. apply Forall_app. split; [exact Hr|].
-    constructor; [split; assumption|constructor].
+    constructor; [repeat split; assumption|constructor].
   - (* OSetCL *)
-    destruct (Forall_nth_error _ _ _ _ Hr E) as [Hi Hc].
-    split; [exact Hs|]. cbn [w_reqs]. apply Forall_set_nth; [exact Hr|]. cbn [r_input r_cache].
-    split; assumption.
+    destruct (Forall_nth_error _ _ _ _ Hr E) as (Hi & Hc & Hf).
+    split; [exact Hs|]. cbn [w_reqs]. apply Forall_set_nth; [exact Hr|]. cbn [r_input r_cache r_failed].
+    repeat split; assumption.
 Qed.
 
-Lemma run_fresh data sc ops : forall w,
-  fresh data sc w -> forallb passive ops = true -> fresh data sc (fst (run buf w ops)).
+Lemma run_fresh data sc mb ops : forall w,
+  fresh data sc w -> forallb passive ops = true -> fresh data sc (fst (run buf mb w ops)).
 Proof.
   induction ops as [|o ops IH]; intros w Hf Hops; [exact Hf|].
   cbn [forallb] in Hops. apply andb_true_iff in Hops. destruct Hops as [Ho Hops]. cbn [run].
-  pose proof (step_fresh data sc w o Hf Ho) as H1.
-  destruct (step buf w o) as [w1 x]. cbn [fst] in H1.
-  specialize (IH w1 H1 Hops). destruct (run buf w1 ops) as [w2 xs]. exact IH.
+  pose proof (step_fresh data sc mb w o Hf Ho) as H1.
+  destruct (step buf mb w o) as [w1 x]. cbn [fst] in H1.
+  specialize (IH w1 H1 Hops). destruct (run buf mb w1 ops) as [w2 xs]. exact IH.
 Qed.
 
 Lemma world_init_fresh data sc cl : fresh data sc (world_init data sc cl).
-Proof. split; [reflexivity|]. constructor; [split; reflexivity | constructor]. Qed.
+Proof. split; [reflexivity|]. constructor; [repeat split; reflexivity | constructor]. Qed.
 
 (* After any passive history (copies, header rewrites), the first body access on
    any request object of the family — with whatever Content-Length that object
@@ -194,10 +256,10 @@ Proof. split; [reflexivity|]. constructor; [split; reflexivity | constructor]. Q
    them, and caches that body on the object. *)
 Lemma first_access_lemma data sc cl0 pre r rq k :
   forallb passive pre = true ->
-  let w := fst (run buf (world_init data sc cl0) pre) in
+  let w := fst (run buf None (world_init data sc cl0) pre) in
   nth_error (w_reqs w) r = Some rq ->
   exists w',
-    step buf w (OBody r k) = (w', OutBytes (take_opt k (firstn (Z.to_nat (r_cl rq)) data)))
+    step buf None w (OBody r k) = (w', OutBytes (take_opt k (firstn (Z.to_nat (r_cl rq)) data)))
     /\ cached w' r (firstn (Z.to_nat (r_cl rq)) data)
     /\ exists s', w_streams w' = [s']
          /\ rest s' = skipn (Z.to_nat (r_cl rq)) data
@@ -205,23 +267,18 @@ Lemma first_access_lemma data sc cl0 pre r rq k :
          /\ reqs_ok buf (Z.to_nat (r_cl rq)) (reqs s').
 Proof.
   intros Hpre w Hr.
-  destruct (run_fresh data sc pre _ (world_init_fresh data sc cl0) Hpre) as [Hs Hq].
+  destruct (run_fresh data sc None pre _ (world_init_fresh data sc cl0) Hpre) as [Hs Hq].
   fold w in Hs, Hq.
-  destruct (Forall_nth_error _ _ _ _ Hq Hr) as [Hin Hca].
-  cbn [step]. rewrite Hr, Hca, Hin, Hs. cbn [nth].
+  destruct (Forall_nth_error _ _ _ _ Hq Hr) as (Hin & Hca & Hfa).
+  cbn [step]. rewrite Hr, Hfa, Hca, Hin, Hs. cbn [nth].
   destruct (C04_exact_lemma data sc buf (r_cl rq) Hbuf) as (s' & Heq & Hrest & Hpos & Hreq).
   rewrite Heq. eexists. split; [reflexivity|]. split.
   - eexists. split; [cbn [w_reqs]; apply nth_error_set_nth_eq; eapply nth_error_Some_lt; exact Hr|].
-    reflexivity.
+    split; reflexivity.
   - exists s'. cbn [w_streams set_nth]. auto.
 Qed.
 
-(* ---- 3. once buffered, the family never touches a stream through r again ---- *)
-Lemma cached_access_no_read w r c k :
-  cached w r c -> w_streams (fst (step buf w (OBody r k))) = w_streams w.
-Proof. intros H. now rewrite (cached_access w r c k H). Qed.
-
-End Req.
+End First.
 
 (* ---- record: a copy taken BEFORE the first access shares the unread server
    stream with the original; whichever reads second is presented the bytes
@@ -230,7 +287,7 @@ End Req.
 Lemma copy_before_first_access_shares_stream :
   exists data sc cl buf,
     0 < buf /\
-    snd (run buf (world_init data sc cl) [OCopy 0; OBody 0 None; OBody 1 None])
+    snd (run buf None (world_init data sc cl) [OCopy 0; OBody 0 None; OBody 1 None])
     = [OutNew 1; OutBytes (firstn (Z.to_nat cl) data);
        OutBytes (firstn (Z.to_nat cl) (skipn (Z.to_nat cl) data))]
     /\ firstn (Z.to_nat cl) (skipn (Z.to_nat cl) data) <> firstn (Z.to_nat cl) data.
@@ -241,12 +298,20 @@ Qed.
 (* non-vacuity of the stability statement: a history with partial reads, a copy,
    header rewrites on both, and a replaced input on the copy only *)
 Example stable_nonvacuous :
-  snd (run 3 (world_init [1;2;3;4;5;6;7]%N [0;1] 5)
+  snd (run 3 None (world_init [1;2;3;4;5;6;7]%N [0;1] 5)
            [OBody 0 (Some 2); OCopy 0; OSetCL 0 2; OSetOther 1; OBody 1 None;
             OSetInput 1 [9;9]%N []; OBody 1 None; OBody 0 None])
   = [OutBytes [1;2]%N; OutNew 1; OutUnit; OutUnit; OutBytes [1;2;3;4;5]%N; OutUnit;
      OutBytes [9;9]%N; OutBytes [1;2;3;4;5]%N].
 Proof. vm_compute. reflexivity. Qed.
+
+(* non-vacuity of the failure statement (the F43 witness): limit 3, Content-Length 4 — the first access is
+   refused after the whole body was read, the second (and one on a copy) is refused without any further read *)
+Example failed_nonvacuous :
+  let '(w, outs) := run 2 (Some 3) (world_init [97;98;99;100;71;69;84]%N [] 4)
+                        [OBody 0 None; OBody 0 None; OCopy 0; OBody 1 (Some 1)] in
+  outs = [OutErr; OutErr; OutNew 1; OutErr] /\ map pos (w_streams w) = [4].
+Proof. vm_compute. split; reflexivity. Qed.
 
 (* ---- the model's header-rewrite steps are justified by the code's own table ----
    OSetCL / OSetOther keep the buffered body: in the invalidation table extracted
